@@ -72,6 +72,39 @@ Theorem C04_abf_state_with_input_data :
 Proof. exact abf_state_with_input_data. Qed.
 Print Assumptions C04_abf_state_with_input_data.
 
+(* ---- T1f.  Which applied forces are subtracted: closed form of the sample of a step for every mix of forces that
+   Colvars applies (ABF force as applied, biases acting through fb [i_o], biases bypassing the extended Lagrangian
+   through fb_actual [i_w], hideJacobian compensation), from any state.  With subtractAppliedForce the sample is the
+   force of the system alone: f_old = colvar::f contains EVERYTHING that was applied, fb_actual included. *)
+Theorem C04_sample_force_closed_form :
+  forall (c : @abf_cfg R) (s : @abf_state R) (i : @abf_in R) (k : nat),
+    (k < c_nd c)%nat ->
+    let io := (i, snd (abf_step Rops c s i)) in
+    vget Rops (sample_force Rops c io) k
+    = (vget Rops (i_e i) k
+       + (if c_same_step c || bget (c_subtract c) k then 0 else oeff Rops c i k + weff Rops c i k)
+       + (if c_hidej c then 0 else vget Rops (i_j i) k))%R.
+Proof. exact sample_force_closed_form. Qed.
+Print Assumptions C04_sample_force_closed_form.
+
+Theorem C04_subtracted_sample_is_system_force :
+  forall (c : @abf_cfg R) (s : @abf_state R) (i : @abf_in R) (k : nat),
+    (k < c_nd c)%nat -> bget (c_subtract c) k = true ->
+    vget Rops (sample_force Rops c (i, snd (abf_step Rops c s i))) k
+    = (vget Rops (i_e i) k + (if c_hidej c then 0 else vget Rops (i_j i) k))%R.
+Proof. exact subtracted_sample_is_system_force. Qed.
+Print Assumptions C04_subtracted_sample_is_system_force.
+
+(* ---- T1b.  Script entry points: `cv bias <name> bincount [cv bias <name> bin]` (= local_sample_count 0) after any history,
+   for values inside the grid, is the number of samples attributed to the bin of the current values. *)
+Theorem C04_script_count_current :
+  forall (c : @abf_cfg R) (h : list (@abf_in R)) (x : @vec R),
+    wf_cfg c -> index_ok c (bins Rops c x) = true ->
+    abf_count_current Rops c (fst (abf_run Rops c h)) x
+    = cnt_of (bins Rops c x) (attributed Rops c (trace_of Rops c h)).
+Proof. exact script_count_current. Qed.
+Print Assumptions C04_script_count_current.
+
 (* ---- T2.  The ABF force handed to variable k at the step that follows any history is
    ramp(count b) * (sum b / count b) for the current bin b (count and sum AFTER this step's accumulation),
    with ramp the documented 0 / linear / 1 function of minSamples and fullSamples; minus, for one periodic
@@ -276,12 +309,12 @@ Print Assumptions C04_run_boundary_history.
 (* wf_cfg holds for a lagged configuration with hideJacobian, with a two-step history that switches applyBias off *)
 Example C04_example_wf :
   let c := @mkCfg R 1 [0%R] [1%R] [2%Z] [false] 2 1 true false [0%R] false false [false] true [false] true (fun _ => (1/2)%R) in
-  let h := [@mkIn R [(1/2)%R] [1%R] [0%R] [3%R] false true; @mkIn R [(1/2)%R] [0%R] [0%R] [3%R] false false] in
+  let h := [@mkIn R [(1/2)%R] [1%R] [0%R] [3%R] false true [0%R]; @mkIn R [(1/2)%R] [0%R] [0%R] [3%R] false false [0%R]] in
   wf_cfg c /\ c_hidej c = true /\ c_same_step c = false /\ length (trace_of Rops c h) = 2%nat.
 Proof. exact example_wf_lagged. Qed.
 
 (* event_ok holds for a step, a restart and a reload with non-negative counts *)
-Example C04_example_event_ok : Forall event_ok [EvStep (@mkIn R [(1/2)%R] [1%R] [0%R] [0%R] false true);
+Example C04_example_event_ok : Forall event_ok [EvStep (@mkIn R [(1/2)%R] [1%R] [0%R] [0%R] false true [0%R]);
                                                 EvRestart ((fun _ => 2%Z), (fun _ => [1%R]));
                                                 EvReload ((fun _ => 0%Z), (fun _ => [0%R]))].
 Proof. exact example_event_ok. Qed.
